@@ -46,6 +46,9 @@ def concrete_operator(kind, cfg, rng, n=None, dims=None):
     n = n or int(rng.integers(1, 5))
 
     def leaf(r, c, ann_):
+        if "PSD" in ann_ and cfg.get("allow_singular") and r >= 2 and rng.random() < 0.5:
+            b = K.rand(rng, r, r - 1, dtype=dt)       # singular PSD (the quantifier of C09: 'singular PSD for exp')
+            return (b @ b.conj().T).astype(dt)
         if "PSD" in ann_:
             return K.spd(rng, r, dt)
         if "SelfAdjoint" in ann_:
@@ -294,6 +297,13 @@ def main():
     witness = json.loads(sys.argv[1])
     n_trials = int(sys.argv[2]) if len(sys.argv) > 2 else 40
     fname, choice, cfg = witness["fn"], witness["choice"], witness.get("cfg", {})
+    if fname in ("exp", "apply_unary"):
+        cfg = dict(cfg, allow_singular=True)
+    try:    # paths through vmap / linear_transpose need the replay shim on the NumPy backend
+        from replay import np_shim
+        np_shim.install()
+    except Exception:
+        pass
     from vcgen.tab import live_table
     F = live_table()[fname]
     # the rule under test: match by parameter class names
@@ -325,6 +335,24 @@ def main():
                                       how="real Auto rule on an operator with more than 1e6 entries; the returned IterativeOperatorWInfo.alg is inspected")))
                 return
         print(json.dumps(dict(replayed=True, failing_input_found=False, trials=2)))
+        return
+    if "exact algorithm requested" in witness.get("clause", "") and witness.get("cfg", {}).get("regime", "").startswith("exact"):
+        # a generic (matmat-only) operator well inside the regime where the documented heuristic selects the exact algorithm
+        from cola.ops.operator_base import LinearOperator
+        from cola.linalg.algorithm_base import Auto
+        for n in (400, 1500, 5000):
+            a = rng.standard_normal((n, 1)) + 2.0
+            A = LinearOperator(np.float64, (n, n), matmat=lambda X, a=a: a * X + X[::-1] * 0.25)
+            ref = a[:, 0].copy()
+            ref_mat_diag = ref + 0.25 * (np.arange(n) == (n - 1 - np.arange(n)))
+            got = sig.implementation(A, 0, Auto()) if fname == "diag" else sig.implementation(A, Auto())
+            want = ref_mat_diag if fname == "diag" else ref_mat_diag.sum()
+            if not close(np.asarray(got), np.asarray(want), 1e-9):
+                print(json.dumps(dict(replayed=True, failing_input_found=True, observed=f"max abs error {float(np.max(np.abs(np.asarray(got) - want))):.3e}",
+                                      expected="exact diagonal (error < 1e-9)", args=[f"generic matmat-only operator, n={n}", "k=0", "Auto()"],
+                                      how="real Auto rule of diag on a generic operator vs its known diagonal")))
+                return
+        print(json.dumps(dict(replayed=True, failing_input_found=False, trials=3)))
         return
     tried = errors = 0
     first_err = None
